@@ -787,11 +787,23 @@ class GraphBuilder(BuilderBase):
     ):
         if isinstance(function, ir.Function):
             graph = function.graph
+            function_ir = function
         elif isinstance(function, onnxscript.OnnxFunction):
             # TODO(justinchuby): Reason about support for outer-scope values in inlined function bodies.
             graph = function.graph().clone(allow_outer_scope_values=True)
+            function_ir = function.function_ir
         else:
             raise TypeError("Function must be an ir.Function or onnxscript.OnnxFunction")
+        # Adapt inputs and attributes exactly as call() does: Python constants become
+        # ir.Values, Python attribute values become ir.Attr, and an attribute parameter
+        # that is not supplied takes the default declared by the function.
+        adapted_args = [self._input_to_ir_value(arg) for arg in args]
+        attr_map: dict[str, ir.Attr] = {
+            attr.name: attr for attr in ir.convenience.convert_attributes(kwargs)
+        }
+        for attr_name, default_attr in function_ir.attributes.items():
+            if attr_name not in attr_map and default_attr.value is not None:
+                attr_map[attr_name] = default_attr
         if _outputs is not None:
             if len(_outputs) != len(graph.outputs):
                 raise ValueError(
@@ -811,7 +823,9 @@ class GraphBuilder(BuilderBase):
 
         count = self._node_count()
         node_name_prefix = self._qualify_node_name(f"{function.name}_node_{count}/")
-        nodes, outputs = _inliner.instantiate(graph, args, kwargs, prefix=node_name_prefix)
+        nodes, outputs = _inliner.instantiate(
+            graph, adapted_args, attr_map, prefix=node_name_prefix
+        )
 
         # Track final output values so we can rename them separately.
         # The inliner prefixes all names, which would prevent name-based lookup
